@@ -604,3 +604,32 @@ package model
 //@   loop 1 invariant [ctx] fresh(results) && len(results) == len(dmp.ConsideredAlternatives)
 //@   loop 1 invariant [evaluated] forall k int :: 0 <= k && k < iter ==> typeis(results[k].Evaluation, EvaluationSingleValue)
 //@             && results[k].Alternative == dmp.ConsideredAlternatives[k] && results[k] == *appptr(pref, dmp.ConsideredAlternatives[k])
+
+// ---- copying / removing alternatives (C01, C09)
+
+//@ func CopyAlternatives
+//@   property C09 C01
+//@   nopanic
+//@   ensures [fresh_copy] fresh(result) && fresh(*result) && len(*result) == len(*alternatives) && forall k int :: 0 <= k && k < len(*alternatives) ==> (*result)[k] == (*alternatives)[k]
+//@   ensures [input_untouched] unchanged(*alternatives)
+
+//@ func ShuffleAlternatives
+//@   property C09 C01
+//@   fnparam generator ensures 0.0 <= result && result < 1.0
+//@   ensures [fresh_permutation] fresh(result) && fresh(*result) && len(*result) == len(*alternatives)
+//@   ensures [members] forall k int :: 0 <= k && k < len(*result) ==> exists j int :: 0 <= j && j < len(*alternatives) && (*result)[k] == (*alternatives)[j]
+//@   ensures [input_untouched] unchanged(*alternatives)
+//@   loop 1 invariant [ctx] fresh(copied) && len(copied) == alternativesCount && alternativesCount == len(*alternatives) && i < alternativesCount && unchanged(*alternatives)
+//@   loop 1 invariant [members] forall k int :: 0 <= k && k < len(copied) ==> exists j int :: 0 <= j && j < len(*alternatives) && copied[k] == (*alternatives)[j]
+
+// RemoveAlternative deletes the first element with the given id IN PLACE (the caller must own the backing array)
+//@ func RemoveAlternative
+//@   property C09 C01
+//@   assigns alternatives
+//@   ensures [absent] (forall k int :: 0 <= k && k < len(alternatives) ==> old(alternatives[k]).Id != alternative.Id) ==> result == alternatives && unchanged(alternatives)
+//@   ensures [removed] forall i int :: 0 <= i && i < len(alternatives) && old(alternatives[i]).Id == alternative.Id && (forall k int :: 0 <= k && k < i ==> old(alternatives[k]).Id != alternative.Id) ==>
+//@             arr(result) == arr(alternatives) && off(result) == off(alternatives) && len(result) == len(alternatives) - 1
+//@             && (forall k int :: 0 <= k && k < i ==> result[k] == old(alternatives[k]))
+//@             && (forall k int :: i <= k && k < len(alternatives) - 1 ==> result[k] == old(alternatives[k + 1]))
+//@   loop 1 invariant [none_before] forall k int :: 0 <= k && k < iter ==> alternatives[k].Id != alternative.Id
+//@   loop 1 invariant [untouched] unchanged(alternatives)
